@@ -814,6 +814,45 @@ func runServerClass(seed uint64, ncases int, R *res.Result) ([]serverCaseRec, []
 	faults := []string{"config#0:before", "config#0:after", "mode#0:before", "mode#0:after", "config#1:before"}
 	var cases []serverCaseRec
 	var texts []string
+	// The first start in dr-auto-sync mode (no DR state has ever been stored) with a failing first write of the status: the cluster is
+	// stopped, the mode is configured, RaftCluster.Start creates the ModeManager (loadDRAutoSync -> drSwitchToSync) while the write of
+	// replication_mode/dr-auto-sync is refused. The start has to fail (it is retried by the server); if it succeeds, what is served to
+	// stores is judged like after any accepted change. Afterwards the operator goes back to majority and the start is repeated.
+	{
+		rec := sstepRec{Mode: "dr-auto-sync", Label: "zone", Fault: "first-start:mode#0:before"}
+		rec.Before = snap()
+		rc := s.GetRaftCluster()
+		orig := *s.GetReplicationModeConfig()
+		rc.Stop()
+		cfg := orig
+		cfg.ReplicationMode, cfg.DRAutoSync.LabelKey = "dr-auto-sync", "zone"
+		cfg.DRAutoSync.Primary, cfg.DRAutoSync.DR = "z1", "z2"
+		cfg.DRAutoSync.PrimaryReplicas, cfg.DRAutoSync.DRReplicas = 2, 1
+		if err := s.SetReplicationModeConfig(cfg); err != nil {
+			panic(err)
+		}
+		kb.Arm(map[string]kvx14.Kind{kvx14.PlanKey("mode", 0): kvx14.FailBefore})
+		err := rc.Start(s)
+		kb.Arm(nil)
+		if err == nil && s.GetRaftCluster() != nil {
+			rec.Res = "ROk"
+			rec.After = snap()
+			R.Count("server-first-start-in-dr-mode:started-although-the-status-write-failed")
+		} else {
+			rec.Res = "RErr"
+			if err := s.SetReplicationModeConfig(orig); err != nil {
+				panic(err)
+			}
+			if err := rc.Start(s); err != nil || s.GetRaftCluster() == nil {
+				panic(fmt.Sprint("cluster does not start again: ", err))
+			}
+			rec.After = snap()
+			R.Count("server-first-start-in-dr-mode:start-failed-and-was-repeated")
+		}
+		c := serverCaseRec{Via: "server-first-start", Steps: []sstepRec{rec}}
+		cases = append(cases, c)
+		texts = append(texts, coqfmt.List([]string{fmt.Sprintf("(%s, %s, %s,\n    %s,\n    %s)", rec.Res, coqfmt.Bool(false), coqfmt.Bool(false), rec.Before, rec.After)}))
+	}
 	master := rng.New(seed ^ 0x5e7c19)
 	for k := 0; k < ncases; k++ {
 		r := master.Fork(uint64(k))
